@@ -217,7 +217,10 @@ public:
 
         m_n = mat.rows();
         // Scale matrix prior to the Schur decomposition
-        const Scalar scale = mat.cwiseAbs().maxCoeff();
+        Scalar scale = mat.cwiseAbs().maxCoeff();
+        // A zero matrix needs no scaling, and dividing it by zero would fill it with NaN
+        if (scale == Scalar(0))
+            scale = Scalar(1);
 
         // Reduce to real Schur form
         m_schur.compute(mat / scale);
